@@ -341,7 +341,7 @@ def rand_query(rng, depth, nletters=2, maxlen=2, scored_only=False, boosts=True,
     f = rng.choice(TEXT_FIELDS)
     if depth <= 0 or rng.random() < 0.25:
         # (scored_only: the leaves whose score the documentation fixes - multi-term leaves score their boost)
-        choices = ["term", "term", "term", "every", "null", "term", "prefix", "wildcard", "termrange", "numrange"] \
+        choices = ["term", "term", "term", "every", "null", "term", "prefix", "wildcard", "termrange", "numrange", "regex"] \
             if scored_only else LEAF_OPS
         if ops:
             choices = [c for c in choices if c in ops] or ["term"]
